@@ -2,7 +2,7 @@
 import re
 from gens import *
 import pyspec
-from vlib import Rng, crc_of, with_parity, parity
+from vlib import Rng, crc_of, with_parity, parity, run_ops
 
 def tok(line, key):
     m = re.search(r"(?:^|[ {\[])%s=([^ }\]]+)" % re.escape(key), line)
@@ -558,6 +558,100 @@ class C15(TrackerProp):
     histories = (80, 120)
     def pick(self, allpos, recs, order): return tuple(order)
 
+class C20(Prop):
+    id = "C20"; module = "Adsb.Theorems.C20"; design_ref = "5/C20"
+    deps = ["cfg:items"]
+    stateful = True
+    level = "proof"
+    technique = ("Lean 4 theorems: nothing but the time stamps depends on the std flag (per step); configuration differential: the harness is built "
+                 "against /repo in std, alloc, std+serde and alloc+serde and fed identical operations; serde_json round trips")
+    rule = ("structured + malformed frames (decode, render, velocity, CPR pairing) and tracker histories without clock operations through the std and the "
+            "alloc-only build: outputs must be byte-identical; serde_json round trip (Debug text equal) of every decodable frame and of the tracker after "
+            "every history in the std+serde and alloc+serde builds")
+    claim = "position logic, attributes and 'added' are independent of the build configuration and the clock (theorems); whole-run equality of the two builds and serde round trips by execution"
+    note = "partial: the lift of the per-step independence to whole histories, serde / serde_json internals and float text round trips are exercised, not proved"
+    def ops(self, rng, tier):
+        n = 3000 if tier == "quick" else 30000
+        ops = structured(rng, n) + malformed(rng, n // 4)
+        ops += [o.replace("F ", "D ", 1) for o in ops[:n]]
+        ops += [o.replace("F ", "V ", 1) for o in ops[:n] if o[2:4] in ("8d", "8c", "8f", "90", "91", "92", "93", "94", "95", "96", "97")][:n // 2]
+        for h in range(20 if tier == "quick" else 200):
+            ops += gentrack.history(rng, 120, n_planes=1 + rng.below(4), with_time=False)
+        return ops
+    def equal(self, a, m): return a == m or numeq(a, m) or a.startswith("TXT")    # renderings are compared by C11, here std vs alloc
+    def project(self, op, line): return line if not line.startswith("TXT") else "TXT"
+    def extra_checks(self, ctx, ops, impl):
+        failing = []
+        import vcheck
+        ok, log, alloc = vcheck.build_harness("alloc")
+        if not ok: ctx.broken.append("alloc-only harness does not build: " + (re.findall(r"error[^\n]*", log) or ["?"])[0]); return failing
+        out = run_ops(alloc, ops)
+        for i, (a, b) in enumerate(zip(impl, out)):
+            if a != b: failing.append((ops[i], "std build and alloc-only build differ: %s | %s" % (a[:200], b[:200]), a, b, i))
+        ctx.extra["alloc_vs_std_ops"] = len(ops)
+        sops = []
+        for o in ops:
+            if o.startswith("F "): sops.append("S " + o[2:])
+            elif o.startswith("T "):
+                sops.append(o)
+                if o == "T dump": sops.append("T serde")
+        for feat in ("std,serde", "alloc,serde"):
+            ok, log, hb = vcheck.build_harness(feat)
+            if not ok: ctx.broken.append("%s harness does not build: %s" % (feat, (re.findall(r"error[^\n]*", log) or ["?"])[0])); continue
+            out = run_ops(hb, sops)
+            n = 0
+            for i, (o, l) in enumerate(zip(sops, out)):
+                if o.startswith("S ") or o == "T serde":
+                    n += 1
+                    if not (l == "SERDE same" or l.startswith("ERR")): failing.append((o, "serde round trip (%s build): %s" % (feat, l[:300]), l, None, i))
+            ctx.extra["serde_roundtrips_" + feat.replace(",", "_")] = n
+        return failing
+
+class C01(Prop):
+    id = "C01"; module = "Adsb.Theorems.C01"; design_ref = "5/C01"
+    deps = []
+    stateful = True
+    rule = ("all 32 formats x lengths 1..32 x {zeros, ones, random}; every field of every type at extreme values; structured and malformed frames: decode, "
+            "render, velocity; all ordered pairs from a pool of position reports (CPR pairing); tracker histories with receivers at poles / antimeridian "
+            "and ranges {0, tiny, 500, 1e9}; every operation runs under catch_unwind; non-trivial = decodable frames")
+    claim = "the model never reaches a panic branch: decode, calculate (with every Rust overflow check written out) and the altitude readers are total (theorems); the implementation never panicked on any explored input"
+    def ops(self, rng, tier):
+        n = 4000 if tier == "quick" else 60000
+        fr = grid_df_len(rng, per=4 if tier == "quick" else 10) + structured(rng, n) + malformed(rng, n)
+        # extreme field values
+        for df in (17, 18):
+            for tc in range(32):
+                for fill in (0x00, 0xFF):
+                    b = bytearray([fill] * 14); put(b, 0, 5, df); put(b, 32, 5, tc); fr.append(hexop("F", b))
+                    for st in range(8):
+                        c = bytearray(b); put(c, 37, 3, st); fr.append(hexop("F", c))
+        for df in (0, 4, 16, 20):
+            for c in list(range(0, 8192, 7)) + [0x1eaf, 0x1fff, 0x010a, 0x050a, 0x0a]:
+                b = rand_frame(rng, df); put(b, 19, 13, c); fr.append(hexop("F", b))
+        for c in range(0, 4096, 3):
+            b = rand_frame(rng, 17, tc=11); put(b, 40, 12, c); fr.append(hexop("F", b))
+        ops = list(fr)
+        ops += [o.replace("F ", "D ", 1) for o in fr]
+        ops += [o.replace("F ", "V ", 1) for o in fr if len(o) == 30]
+        pool = [o[2:] for o in fr if len(o) == 30 and o[2:4] in ("8d", "8f", "90", "95")][:60 if tier == "quick" else 200]
+        pos = []
+        for h in pool:
+            b = bytearray.fromhex(h); put(b, 32, 5, rng.choice([9, 11, 18, 20, 22])); pos.append(bytes(b).hex())
+        for k in range(40):
+            b = rand_frame(rng, 17, tc=11); put(b, 54, 17, rng.choice([0, 1, 65536, 131071, rng.bits(17)])); put(b, 71, 17, rng.choice([0, 65536, 131071, rng.bits(17)]))
+            pos.append(bytes(b).hex())
+        for a in pos:
+            for b in pos: ops.append("P %s %s" % (a, b))
+        for rx in [(90.0, 0.0), (-90.0, 0.0), (0.0, 180.0), (0.0, -180.0), (89.999, 179.999), (0.0, 0.0)]:
+            for rg in ("0", "0.000000001", "500", "1000000000"):
+                h = gentrack.history(rng, 60 if tier == "quick" else 300, n_planes=3, with_time=True, rx=rx, rng_range=500)
+                h[0] = "T reset %s %s %s" % (rx[0], rx[1], rg)
+                ops += h
+        return ops
+    def equal(self, a, m): return a == m or numeq(a, m, 1e-3) or a.startswith("TXT") or a.startswith("POS") or a.startswith("VEL")
+    def project(self, op, line): return "PANIC" if line.startswith("PANIC") else "ok"
+    def nontrivial(self, op, line): return line.startswith(("OK", "TXT", "VEL some", "POS some", "ADDED"))
+
 ALL = {}
-for c in [C02, C03, C04, C06, C07, C08, C09, C10, C12, C13, C14, C15]:
+for c in [C01, C02, C03, C04, C06, C07, C08, C09, C10, C12, C13, C14, C15, C20]:
     ALL[c.id] = c
